@@ -408,7 +408,7 @@ func recordU(r *evid.Rec, c ucase, st ustats, tag string) {
 	r.Sample(map[string]interface{}{"kind": "ungated", "case": c})
 }
 
-const ruleUngated = "ungated: same service, 2-4 really concurrent goroutines with 1-12 ops each (PutRetrieveTraffic/PutTransferTraffic/Pay/ReceiveCheque/TrafficInit, biased to peer 0), all calls return, then restart; same lower-bound oracle; emitted cumulative payouts per peer strictly increasing; non-trivial = >= 2 goroutines operate on one peer"
+const ruleUngated = "ungated: same service, 2-4 really concurrent goroutines with 1-12 ops each (PutRetrieveTraffic/PutTransferTraffic/Pay/ReceiveCheque/TrafficInit, biased to peer 0), all calls return, then restart; same lower-bound oracle; emitted cumulative payouts per peer strictly increasing; non-trivial = >= 2 goroutines operate on one peer. sequential-with-handshake: 1-16 sequential ops incl. the traffic handshake in which a reconnecting peer presents this node's own cheque 0..1000 above what the node remembers having paid (adopted when higher), TrafficInit and restarts; oracle: every total, stored cheque and settlement amount read through the service before a restart is at most the value read after it, and no cheque is issued at or below an adopted amount; non-trivial = a restart after an adoption"
 
 func TestC33_Ungated(t *testing.T) {
 	r := evid.Get(id)
